@@ -536,6 +536,21 @@ Proof.
   split; [exact E1|]. split; [apply canon_root1; exact E1 | apply prefixb_under; exact E2].
 Qed.
 
+(* without a destination: the returned path is relative to the current directory and free of ".." *)
+Lemma sanitize_none_ok : forall nm cwd0 o, nodd cwd0 ->
+  get_sanitized_output_path nm cwd0 None = Some o -> proot o = 0 /\ nodd (pparts o).
+Proof.
+  intros nm cwd0 o Hn H. unfold get_sanitized_output_path in H.
+  rewrite (canon_id cwd0 Hn) in H.
+  set (t := canonical_path (pjoin (mkP 1 cwd0) (remove_relative_path_marker (lstrip SLASH nm)))) in *.
+  destruct (is_relative_to t (mkP 1 cwd0)) eqn:E; [|discriminate].
+  inversion H; subst o; clear H. unfold is_relative_to in E. rewrite (canon_id cwd0 Hn) in E. simpl in E.
+  apply andb_true_iff in E as [E1 E2]. apply Z.eqb_eq in E1. apply prefixb_under in E2 as [r Hr].
+  split; [reflexivity|]. unfold relative_to. simpl. rewrite Hr.
+  rewrite skipn_app, skipn_all, Nat.sub_diag. simpl.
+  pose proof (canon_root1 _ E1) as Hp. fold t in Hp. rewrite Hr in Hp. apply nodd_app in Hp. apply Hp.
+Qed.
+
 (* ------------------------------------------------------------------ the extraction program *)
 (* a symbolic-link member whose target text is relative and has no ".." (members that are not links,
    or links with an empty stream -- extracted as empty files -- are unconstrained) *)
@@ -706,21 +721,14 @@ Definition dest_ok (cwd : rpath) (dest : option ppath) (d : rpath) : Prop :=
   | None => d = cwd
   end.
 
-(* destination None: the sanitiser returns the member name itself, un-canonicalised; it stays below cwd
-   when it is relative and free of ".." once "/"s and one "./" are stripped *)
-Definition name_rel_ok (nm : str) : Prop :=
-  let o := pparse (remove_relative_path_marker (lstrip SLASH nm)) in proot o = 0 /\ nodd (pparts o).
-Definition names_ok (dest : option ppath) (es : list entry) : Prop :=
-  match dest with Some _ => True | None => Forall name_rel_ok (outnames es []) end.
-
 Theorem extract_confined_general : forall f cwd dest es mode d,
   dest_ok cwd dest d -> nodd d -> real_dir f d -> links_safe f d ->
-  Forall entry_ok es -> names_ok dest es ->
+  Forall entry_ok es ->
   Inv d (final_state (extract_fs f cwd dest es mode)).
 Proof.
-  intros f cwd dest es mode d Hdest Hd Hr Hl He Hn.
+  intros f cwd dest es mode d Hdest Hd Hr Hl He.
   assert (H : hoare d (extract cwd dest es mode) (fun _ => True)).
-  { apply hoare_extract with (N := match dest with Some _ => fun _ => True | None => name_rel_ok end); auto.
+  { apply hoare_extract with (N := fun _ => True); auto.
     - (* the sanitiser *)
       intros nm o HN Hs. destruct dest as [p0|]; unfold sanitize_base in Hs; simpl in Hdest.
       + assert (Hb : exists b, (if p_is_abs p0 then p0 else pjoinp (mkP 1 cwd) p0) = b /\ proot b = 1 /\ pparts b = d).
@@ -731,17 +739,15 @@ Proof.
         assert (Hbn : nodd (pparts b)) by (rewrite Hb2; exact Hd).
         destruct (sanitize_ok nm cwd b o Hb1 Hbn Hs) as [Ho1 [Ho2 [r Ho3]]]. split; [exact Ho2|]. right.
         exists d, r. unfold start, p_is_abs. rewrite Ho1. simpl. rewrite <- Hb2. auto.
-      + unfold get_sanitized_output_path in Hs.
-        destruct (is_relative_to (canonical_path (pjoin (mkP 1 cwd) (lstrip SLASH nm))) (mkP 1 cwd)); [|discriminate].
-        inversion Hs; subst o. destruct HN as [N1 N2]. split; [exact N2|]. left.
-        unfold p_is_abs. rewrite N1. auto.
+      + simpl in Hdest. subst d. destruct (sanitize_none_ok nm cwd o Hd Hs) as [N1 N2].
+        split; [exact N2|]. left. unfold p_is_abs. rewrite N1. auto.
     - (* the destination itself *)
       destruct dest as [p0|]; [|exact I]. simpl in Hdest. destruct Hdest as [[H1 H2]|[H1 H2]].
       + split; [rewrite <- H2; exact Hd|]. right. exists d, []. unfold start, p_is_abs. rewrite H1. simpl.
         rewrite app_nil_r. auto.
       + split; [rewrite H2 in Hd; apply nodd_app in Hd; apply Hd|]. right. exists (pparts p0), [].
         unfold start, p_is_abs. rewrite H1. simpl. rewrite app_nil_r. auto.
-    - destruct dest; simpl in *; auto. clear. induction (outnames es []); constructor; auto. }
+    - clear. induction (outnames es []); constructor; auto. }
   specialize (H (mkSt f [])). unfold extract_fs.
   assert (I0 : Inv d (mkSt f [])) by (split; [|split]; simpl; auto; constructor).
   specialize (H I0). destruct (extract cwd dest es mode (mkSt f [])); simpl; [apply H | exact H].
@@ -757,7 +763,6 @@ Proof.
   apply (extract_confined_general f cwd (Some p0) es mode d); auto.
   - apply no_links_safe; exact Hl.
   - clear -He. induction He; constructor; auto. intros Hk. contradiction.
-  - exact I.
 Qed.
 
 (* booleans for concrete states *)
@@ -852,27 +857,26 @@ Proof.
   - intro H. apply effs_underb_iff in H. vm_compute in H. discriminate.
 Qed.
 
-(* destination None (the current directory): a name "./" + absolute path is returned as that absolute path *)
-Theorem extract_confined_none_absolute_refuted :
-  dest_ok w_d None w_d /\
-  s_eff (final_state (extract_fs w_fs w_d None w_absname 0)) =
-    [(KChmod, [w_jail; w_out; [120]]); (KUtime, [w_jail; w_out; [120]]); (KCreate, [w_jail; w_out; [120]])] /\
-  ~ effs_under w_d (s_eff (final_state (extract_fs w_fs w_d None w_absname 0))).
+(* destination None (the current directory): no hypothesis on the names is needed any more -- the sanitiser
+   returns the checked path, relative and free of ".." *)
+Theorem extract_confined_none : forall f cwd es mode,
+  nodd cwd -> real_dir f cwd -> links_safe f cwd -> Forall entry_ok es ->
+  effs_under cwd (s_eff (final_state (extract_fs f cwd None es mode))).
 Proof.
-  split; [reflexivity|]. split; [vm_compute; reflexivity|].
-  intro H. apply effs_underb_iff in H. vm_compute in H. discriminate.
+  intros f cwd es mode Hd Hr Hl He.
+  apply (extract_confined_general f cwd None es mode cwd); auto. reflexivity.
 Qed.
 
-(* destination None: a name that leaves and re-enters the current directory makes mkdir(parents) create
-   the directories of the detour *)
-Theorem extract_confined_none_climb_refuted :
-  dest_ok w_d None w_d /\
-  In (KMkdir, [w_jail; [122; 122]]) (s_eff (final_state (extract_fs w_fs w_d None w_climb 0))) /\
-  ~ effs_under w_d (s_eff (final_state (extract_fs w_fs w_d None w_climb 0))).
-Proof.
-  split; [reflexivity|]. split; [vm_compute; auto 10|].
-  intro H. apply effs_underb_iff in H. vm_compute in H. discriminate.
-Qed.
+(* the former witnesses: ".//jail/out/x" is refused before anything is written, "../zz/../dest/x" is written
+   as "x" without creating the detour *)
+Example none_absolute_name_refused : extract_fs w_fs w_d None w_absname 0 = Exc XBad7z (mkSt w_fs []).
+Proof. vm_compute. reflexivity. Qed.
+
+Example none_climb_confined :
+  get_sanitized_output_path ([46; 46; 47; 122; 122; 47; 46; 46; 47] ++ w_dest ++ [47; 120]) w_d None = Some (mkP 0 [[120]]) /\
+  s_eff (final_state (extract_fs w_fs w_d None w_climb 0)) =
+    [(KChmod, [w_jail; w_dest; [120]]); (KUtime, [w_jail; w_dest; [120]]); (KCreate, [w_jail; w_dest; [120]])].
+Proof. split; vm_compute; reflexivity. Qed.
 
 Theorem extract_confined_refuted : ~ extract_confined_statement.
 Proof.
@@ -901,11 +905,10 @@ Proof.
   split; [exact H1|]. split; [exact H2|]. apply prefixb_under. exact H3.
 Qed.
 
-(* without a destination the *returned* path is not what was checked: it can be absolute *)
-Theorem sanitized_none_refuted :
-  get_sanitized_output_path ([46; 47; 47] ++ w_jail ++ [47] ++ w_out ++ [47; 120]) w_d None
-    = Some (mkP 1 [w_jail; w_out; [120]]).
-Proof. vm_compute. reflexivity. Qed.
+(* without a destination the returned path is relative to the current directory and free of ".." *)
+Theorem sanitized_none_inside : forall nm cwd0 o, nodd cwd0 ->
+  get_sanitized_output_path nm cwd0 None = Some o -> proot o = 0 /\ nodd (pparts o).
+Proof. exact sanitize_none_ok. Qed.
 
 (* hypotheses of the general theorem are met by a populated destination holding a link, and an archive
    with files, a directory, duplicate names and a (safe) link member; 13 effects take place *)
@@ -917,7 +920,7 @@ Definition x_es : list entry :=
    mkE [46; 46; 47; 120] 0 [] true 1 true].
 Example general_hyps_satisfiable :
   dest_ok [w_jail] (Some (mkP 0 [w_dest])) w_d /\ nodd w_d /\ real_dir x_fs w_d /\ links_safe x_fs w_d /\
-  Forall entry_ok (firstn 5 x_es) /\ names_ok (Some (mkP 0 [w_dest])) (firstn 5 x_es) /\
+  Forall entry_ok (firstn 5 x_es) /\
   length (s_eff (final_state (extract_fs x_fs [w_jail] (Some (mkP 0 [w_dest])) (firstn 5 x_es) 0))) = 13%nat /\
   (* a refused name aborts before anything is written *)
   extract_fs x_fs [w_jail] (Some (mkP 0 [w_dest])) x_es 0 = Exc XBad7z (mkSt x_fs []).
@@ -927,14 +930,16 @@ Proof.
   split.
   { repeat (apply Forall_cons || apply Forall_nil); intros Hk He; try discriminate.
     split; [reflexivity | apply noddb_ok; reflexivity]. }
-  split; [exact I|]. split; vm_compute; reflexivity.
+  split; vm_compute; reflexivity.
 Qed.
 
 Example none_hyps_satisfiable :
-  dest_ok w_d None w_d /\ names_ok None [w_file [97; 47; 102]; w_file [46; 47; 98]] /\
-  length (s_eff (final_state (extract_fs w_fs w_d None [w_file [97; 47; 102]; w_file [46; 47; 98]] 0))) = 7%nat.
+  dest_ok w_d None w_d /\ nodd w_d /\ real_dir w_fs w_d /\ links_safe w_fs w_d /\
+  Forall entry_ok [w_file [97; 47; 102]; w_file [46; 47; 98]; w_file [97; 47; 102]] /\
+  length (s_eff (final_state (extract_fs w_fs w_d None [w_file [97; 47; 102]; w_file [46; 47; 98]; w_file [97; 47; 102]] 0))) = 10%nat.
 Proof.
-  split; [reflexivity|]. split.
-  - simpl. repeat constructor; apply noddb_ok; reflexivity.
+  split; [reflexivity|]. split; [apply noddb_ok; reflexivity|]. split; [apply real_dirb_ok; reflexivity|].
+  split; [apply links_safeb_ok; reflexivity|]. split.
+  - repeat (apply Forall_cons || apply Forall_nil); intros Hk; discriminate.
   - vm_compute. reflexivity.
 Qed.
